@@ -2,7 +2,9 @@ import G3D.Proofs.Builders
 import G3D.Proofs.BuildersReal
 import G3D.Proofs.CosSqBound
 import G3D.Proofs.SmallAngle
-/-! # C14 — shape builders  (partial: Sphere volume / convexity and the closed-form AREAS of the round shapes are not proved)
+import G3D.Proofs.BuildersSphereGeneral
+/-! # C14 — shape builders  (full over ℝ for the model's face lists: counts, placement, convexity, closed-form areas and volumes;
+    see `Proofs/BuildersArea.lean`, `BuildersSphere*.lean` for the areas, the Sphere volume / convexity and the general-n Sphere skeleton)
     Three layers (the vertices of the round shapes are irrational, so they never pass through the rational constructors):
     (i)  combinatorial skeletons of the face lists exactly as the Python builds them, with the flips the ConvexPolyhedron
          constructor applies: vertex / edge / face counts, Euler, every edge on exactly two faces, consistent orientation —
@@ -67,4 +69,11 @@ theorem parallelogram_area (p a b : V3) : normSq (vecArea2 (parallelogramPts p a
 theorem parallelepiped_volume_is_det (p v1 v2 v3 q : V3) (hd : det3 v1 v2 v3 ≠ 0) :
     vol6 (((ppFacesCoded p v1 v2 v3).map (orientOut (ppCentre p v1 v2 v3))).map Prod.snd) q = 6 * absQ (det3 v1 v2 v3) :=
   parallelepiped_volume p v1 v2 v3 q hd
+
+/-- **Sphere, every resolution**: the counts, Euler's formula, simplicity, closedness and consistent orientation of the Sphere
+    face complex for ALL n1 ≥ 3, n2 ≥ 2 (the table `sphere_counts` above covers only the property's range) -/
+theorem sphere_counts_general (n1 n2 : Nat) (h3 : 3 ≤ n1) (h2 : 2 ≤ n2) :
+    vertexCount (sphereFaces n1 n2) = n1 * (2 * n2 - 1) + 2 ∧ edgeCount (sphereFaces n1 n2) = n1 * (4 * n2 - 1) ∧
+      faceCount (sphereFaces n1 n2) = 2 * n1 * n2 ∧ Euler (sphereFaces n1 n2) ∧ Simple (sphereFaces n1 n2) ∧
+      ClosedUndir (sphereFaces n1 n2) ∧ ClosedDir (sphereOriented n1 n2) := sphere_skeleton_general n1 n2 h3 h2
 end G3D.Props.C14
